@@ -626,6 +626,31 @@ def conditional_sep_cases(rng, tier):
     return out
 
 
+def unlock_attack_cases(rng, tier, built):
+    """unlocking scripts that are NOT push-only against the three lock families: a true value followed by a flow-control / stack
+    opcode that tries to end or skip the evaluation before the lock's own signature check (OP_1 OP_RETURN ...), and a correct
+    unlocking script with junk around it.  Without a valid signature in it the input must never count as spent."""
+    out = []
+    junk = ["516a", "6a", "516a51", "51696a", "5169", "51ab", "5174", "517551", "5176", "5161", "51635168", "5163516751 68".replace(" ", ""),
+            "0064516851", "516a6a", "51636a68", "00516a", "5151", "51777551", "516b6c", "51008763516851"]
+    for kind in ("p2pk", "p2pkh", "ms"):
+        cand = [b for b in built if b[0] == kind]
+        if not cand:
+            continue
+        for n, b in enumerate(cand[:(2 if tier == "quick" else 8)]):
+            _, tx, idx, ext, _ = b
+            t = parse_tx(bytes.fromhex(tx))
+            orig = t["ins"][idx]["scr"]
+            scripts = [bytes.fromhex(j) for j in (junk if n == 0 else rng.sample(junk, 6))]
+            # the honest unlocking script with junk behind / in front of it (still a valid signature inside: correspondence only)
+            scripts += [orig + b"\x61", orig + b"\x6a", orig + b"\x51", b"\x51\x6a" + orig, orig + b"\x51\x6a", b"\x51\x69" + orig,
+                        orig + b"\x75\x51", orig + b"\xab"]
+            for sc in scripts:
+                t2 = parse_tx(bytes.fromhex(tx)); t2["ins"][idx]["scr"] = sc
+                out.append(spend_case(ser_tx(t2), idx, ext))
+    return out
+
+
 def generate(rng, tier, pre=None):
     cases = []
     built = []
@@ -724,6 +749,7 @@ def generate(rng, tier, pre=None):
         cases.append(spend_case(ser_tx(t2), 0, "9." + lock))
     cases.extend(conditional_sep_cases(rng, tier))
     cases.extend(seq)
+    cases.extend(unlock_attack_cases(rng, tier, built))
     return cases
 
 
